@@ -22,7 +22,9 @@ from mc.env import ref_ash
 from mc.env.gwworld import GwWorld
 
 RST_BYTES = bytes.fromhex("1ac038bc7e")
-RESET_TIMEOUT = 5.0     # hard-coded on purpose (UG101 / bellows.uart.RESET_TIMEOUT)
+from mc import tunables
+
+RESET_TIMEOUT = tunables.reset_timeout()     # "the reset timeout": bellows.uart.RESET_TIMEOUT, a tunable the property names but does not fix
 STARTUP_WAIT = 1.0
 SW = 0x0B
 EPS = 1e-9
@@ -442,7 +444,7 @@ def scripted(kind, code, arrival, prior, workload="reset"):
     if arrival == "at_once":
         frame()
     elif arrival == "late_in_time":
-        w.loop._vtime += 4.9 if workload == "reset" else 0.9
+        w.loop._vtime += (RESET_TIMEOUT - 0.1) if workload == "reset" else 0.9
         frame()
     elif arrival == "coincident":
         w.loop._vtime = max(w.loop._vtime, w.loop.next_deadline())
